@@ -203,7 +203,7 @@ func (h *HarnessRun) recordViolation(ex *Exec, name, msg string, m *Model) {
 	if h.vioCount[name] > h.Opt.MaxViolations {
 		return
 	}
-	v := &Violation{Harness: h.Name, Name: name, Msg: msg, Inputs: ex.modelInputs(m), Decisions: len(ex.trace)}
+	v := &Violation{Harness: h.Name, Name: name, Msg: msg, Inputs: ex.modelInputs(m), Decisions: len(ex.trace), Schedule: append([]string{}, ex.sched...)}
 	for _, k := range ex.knowns {
 		if c := Eval(k.cond, m); c.IsConst() && c.B {
 			v.KnownTags = append(v.KnownTags, k.tag)
